@@ -52,7 +52,10 @@ def bases(cls):
         return {"box123_r": dict(v=_box(1, 2, 3, (5, 5, -7)), r=0.5), "wedge5_r": dict(v=wedge, r=0.25)}
     if cls == "Polygon":
         return {"dart_cw": dict(v=[[4, 1], [6, 7], [9, 1], [6, 3]][::-1], tilt=True),
-                "rect": dict(v=rect), "pent": dict(v=[[0, 0], [4, 0], [5, 3], [2, 5], [-1, 2]], shift=(30, -20))}
+                "rect": dict(v=rect), "pent": dict(v=[[0, 0], [4, 0], [5, 3], [2, 5], [-1, 2]], shift=(30, -20)),
+                # explicit normal opposite to the one implied by the first corner (clockwise about the given normal)
+                "dart_negnormal": dict(v=[[4, 1], [6, 7], [9, 1], [6, 3]], tilt=True, flipnormal=True),
+                "rect_negnormal": dict(v=rect, flipnormal=True)}
     if cls == "ConvexPolygon":
         return {"kite": dict(v=kite), "rect": dict(v=rect), "tri": dict(v=tri, tilt=True)}
     if cls == "ConvexSpheropolygon":
@@ -92,6 +95,8 @@ def build(cls, spec):
             v3, n = _tilt(v2)
         else:
             v3, n = [[float(p[0]), float(p[1]), 0.0] for p in v2], None
+        if spec.get("flipnormal"):
+            n = [-x for x in n] if n is not None else [0.0, 0.0, -1.0]
         if cls == "Polygon":
             return S.Polygon(np.array(v3), normal=n)
         if cls == "ConvexPolygon":
